@@ -95,15 +95,20 @@ def run(ctx):
     from vf import model
     from vf.props.c12 import gen_weighting
     model.check_analysis()
-    for idx in ctx.cases(quick=110, thorough=420):
+    for idx in ctx.cases(quick=80, thorough=400):
         rng = ctx.rng(idx)
         ctx.reseed_global(idx)
         h = model.gen_history(rng, ndocs=(30, 400) if rng.random() < 0.7 else (5, 40), boosts=rng.random() < 0.5, maxlen=8, burst=rng.choice([0.0, 0.05, 0.15]),
                               delete_modes=("none", "few", "many", "segment"))
         h["blocklimit"] = rng.choice([2, 2, 4, 16, 128])
+        staged = False
         if idx % 29 == 3:
             h = model.gen_big_history(rng, small_first=rng.random() < 0.7)
             ctx.count("c05.big_segment_cases")
+        elif idx % 3 == 1:
+            h = model.gen_staged_history(rng)
+            staged = True
+            ctx.count("c05.staged_cases")
         wname, wobj = gen_weighting(rng)
         wb = {"history": {"commits": [len(c) for c in h["commits"]], "deletes": len(h["deletes"]),
                           "blocklimit": h["blocklimit"], "storage": h["storage"]}, "case_idx": idx, "weighting": wname}
@@ -114,14 +119,30 @@ def run(ctx):
         ctx.count("c05.model.%s" % wname.split("(")[0])
         try:
             with built.ix.searcher(weighting=wobj) as s:
-                for _ in range(14):
-                    if rng.random() < 0.4:
-                        q = model.gen_skip_stress(rng)
-                        ctx.count("c05.skip_stress_queries")
+                plan = [None] * 14
+                if staged:
+                    # pair sweep: every And / Or of two frequent words, optionally with the first one boosted, small k
+                    from whoosh import query as _q
+                    ws = model.VOCAB[:4]
+                    for a in ws:
+                        for b in ws:
+                            if a != b:
+                                ta = _q.Term("t", a, boost=rng.choice([1.0, 1.0, 2.0, 3.0]))
+                                tb = _q.Term("t", b)
+                                plan.append((rng.choice([_q.And, _q.And, _q.Or])([ta, tb]), rng.choice([1, 2, 3])))
+                for item in plan:
+                    if item is not None:
+                        q, k = item
+                        opts, optnames = {}, ()
+                        ctx.count("c05.pair_sweep_queries")
                     else:
-                        q = model.gen_query(rng, depth=rng.choice([1, 2, 2, 3]), scoring=True)
-                    opts, optnames = gen_opts(rng, model)
-                    k = rng.choice([1, 2, 3, 5, 10, 25])
+                        if rng.random() < (0.8 if staged else 0.4):
+                            q = model.gen_skip_stress(rng)
+                            ctx.count("c05.skip_stress_queries")
+                        else:
+                            q = model.gen_query(rng, depth=rng.choice([1, 2, 2, 3]), scoring=True)
+                        opts, optnames = gen_opts(rng, model)
+                        k = rng.choice([1, 2, 3, 5, 10, 25])
                     w = dict(wb, query=repr(q), k=k, options=[(n, repr(opts[n])) for n in sorted(opts)])
 
                     def body():
